@@ -1171,7 +1171,11 @@ func (m *Machine) checkVerdict(j *JobRec, js *JobSnap) {
 			r, ok := results[t.Name]
 			switch {
 			case !ok:
-				if t.Status == "done" || t.Status == "error" && len(j.Runners) > 0 && !anyRefused(m, j, t.Name) {
+				// A task that was handed to the runner after the stop request is refused with the context
+				// error: that is a failure of the task (status error, or done for an allow_failure task,
+				// the scheduler's way to report a tolerated failure), not an execution.
+				refused := anyRefused(m, j, t.Name)
+				if (t.Status == "done" && !(refused && t.AllowFail)) || (t.Status == "error" && len(j.Runners) > 0 && !refused) {
 					m.fail("C08", "job #%d: task %s never ran but is reported %s", j.AcceptIdx, t.Name, t.Status)
 				}
 			case r.byCancel:
